@@ -55,7 +55,12 @@ NoException == ~R.raised \/ Fail("NoException")
 \* every IOPATH lands on [dataset, line, input polarity, output polarity]; every other entry is zero
 IoPathsLand == R.raised \/ R.gotio = ExpectIo \/ Fail("IoPathsLand")
 InterconnectsLand == R.raised \/ R.gotic = ExpectIc \/ Fail("InterconnectsLand")
-\* machinery: the generator marks the entries that name a pin without a line (noline); model and generator must agree on them
-EntriesHaveLines == (\A k \in 1..Len(R.ents) : LET e == R.ents[k] IN e.noline <=> ((IF e.io THEN IoLine(e) ELSE IcLine(e)) < 0))
+\* The generator knows from the abstract module and the branchforks setting which entries name two connected pins with a
+\* line of their own between them (a branch fork was requested, or the reader is the sole one).  Such an entry must have a
+\* line to land on in the circuit the parser built: otherwise its delay is lost (a C14 verdict).
+EntryHasLine == (\A k \in 1..Len(R.ents) : LET e == R.ents[k] IN ~e.noline => ((IF e.io THEN IoLine(e) ELSE IcLine(e)) >= 0))
+                \/ Fail("EntryHasLine")
+\* machinery: entries the generator aimed at a pin WITHOUT a line (noline) must not find one in the model either
+EntriesHaveLines == (\A k \in 1..Len(R.ents) : LET e == R.ents[k] IN e.noline => ((IF e.io THEN IoLine(e) ELSE IcLine(e)) < 0))
                     \/ (PrintT(<<"FAIL", "MACHINERY", tid, 0, "EntriesHaveLines">>) /\ FALSE)
 =============================================================================
